@@ -213,4 +213,46 @@ Section Block.
       unfold shift_spec. cbn [beq Bool.eqb andb]. reflexivity.
     - rewrite (aux_matrix u n (true :: r) c) by (cbn; congruence). reflexivity.
   Qed.
+
+  (** the same for any phase function (ph q = exp(i q theta)) *)
+  Theorem aux_blk0_char (ph : Q -> K) n : character ph ->
+    blk0 n (circuit_mx (Datatypes.S n) ph (aux_circuit ideal_aux n)) (shift_spec (ph 1%Q)).
+  Proof.
+    intros H r c Hr Hc. split.
+    - rewrite (aux_matrix_char ph n (false :: r) c) by (try assumption; cbn; congruence).
+      unfold shift_spec. cbn [beq Bool.eqb andb]. reflexivity.
+    - rewrite (aux_matrix_char ph n (true :: r) c) by (try assumption; cbn; congruence). reflexivity.
+  Qed.
+
+  (** The whole circuit of the eigenvalue transformation, closed form (no hypotheses about the
+      gate groups): n encoding qubits, w system wires, U / Ui ANY matrices on the n + w wires
+      of the block encoding (so all three encoding methods), one phase function per angle.
+      Auxiliary method: wire 0 = auxiliary qubit; every phase-shift group is the gate product
+      MCX Rz MCX of the source (x) identity on the system, every block-encoding gate is
+      identity on the auxiliary qubit (x) U.  On the auxiliary-|0> block the circuit is the
+      product of the same word with the defining phase shifts exp(i th_k (2|0><0| - 1)) (x) 1. *)
+  Theorem evt_aux_circuit_blk0 (phs : Z -> Q -> K) n w (U Ui : BMx K) wd :
+    (forall k, character (phs k)) ->
+    blk0 (n + w)
+      (word_mx (Datatypes.S (n + w))
+         (fun k => kron (Datatypes.S n) (circuit_mx (Datatypes.S n) (phs k) (aux_circuit ideal_aux n)) mid)
+         (kron 1 mid U) (kron 1 mid Ui) wd)
+      (word_mx (n + w) (fun k => kron n (shift_spec (phs k 1%Q)) mid) U Ui wd).
+  Proof.
+    intros H. apply word_blk0.
+    - intros k. apply blk0_kron_r, aux_blk0_char, H.
+    - apply blk0_kron_id.
+    - apply blk0_kron_id.
+  Qed.
+
+  (** c-phase method (no auxiliary qubit): the two products are equal outright *)
+  Theorem evt_cphase_circuit_meq (phs : Z -> Q -> K) n w (U Ui : BMx K) wd :
+    (1 <= n)%nat -> (forall k, character (phs k)) ->
+    meq (n + w)
+      (word_mx (n + w) (fun k => kron n (circuit_mx n (phs k) (cphase_circuit ideal_cphase n)) mid) U Ui wd)
+      (word_mx (n + w) (fun k => kron n (shift_spec (phs k 1%Q)) mid) U Ui wd).
+  Proof.
+    intros Hn H. apply word_mx_meq; try apply meq_refl.
+    intros k. apply kron_meq; [apply cphase_matrix_char; [apply H|exact Hn]|apply meq_refl].
+  Qed.
 End Block.
